@@ -50,6 +50,7 @@ fn main() {
                 purity::child_main();
                 0
             }
+            Some("exec-plan") => check::exec_plan_main(),
             Some("anchors") => match anchors::run(args.get(2).map(|s| s != "thorough").unwrap_or(true)) {
                 Ok(r) => {
                     println!("anchors ok: {:?}", r);
